@@ -408,3 +408,67 @@ def c12_6(cx):
     init = CallIs(r"IterationStamp::is_initial_iteration$", True, [r"^\$4$"], desc="iteration.is_initial_iteration()")
     for d in t.calls(r"Default>::default$|IterationStamp.*default$"):
         cx.only_if(t, d, init, "the default (zero) stamp is used only when no iteration took place")
+
+
+@ob("C12.7", ["C12", "C18", "C13"], "whether a completing query is the head of its cycle (and with which iteration stamp it goes on) decides who iterates: a participant mistaken for a head iterates on its own with stale heads, a head mistaken for a participant hands its value up un-iterated; a recursion that skips nested heads loses the outermost head", kind="ONLYIF+FLOW+LOOP (cycle-head resolution)")
+def c12_7(cx):
+    """try_complete_query: Completed only if no cycle heads were collected; Participant only if collect_all_cycle_heads(..).1 (depends_on_self) is false and there is an outer cycle; CycleHead only if it is true, with cycle_iteration = max_iteration when there is no outer cycle and the current iteration otherwise. collect_recursive: (default, true) exactly when the head examined is the query itself; otherwise every head of the examined head's provisional memo is folded into max_iteration (Ord::max) and, unless already known to the query or already collected, recorded and recursed into (depends_on_self is OR-ed). The outer loop recurses into every own head."""
+    t = cx.fn(EXE + r"try_complete_query$")
+    col = r"function::execute::collect_all_cycle_heads\(\$1, zalsa_local::ActiveQueryGuard::<'me>::take_cycle_heads\(\$2\), \$2\.database_key_index, \$4\)"
+    dep = BoolIs(r"^" + col + r"\.1$", True, desc="depends_on_self")
+    nodep = BoolIs(r"^" + col + r"\.1$", False, desc="!depends_on_self")
+    outer = r"function::execute::outer_cycle\("
+    empty = CallIs(r"^cycle::CycleHeads::is_empty$", True, desc="no cycle heads")
+    for s in cx.sites(t.aggregates(r"QueryExecutionOutcome$", "Completed"), 1, "Completed"):
+        cx.only_if(t, s, empty, "a query completes outright only if it collected no cycle heads")
+    for s in cx.sites(t.aggregates(r"QueryExecutionOutcome$", "Participant"), 1, "Participant"):
+        cx.only_if(t, s, nodep, "Participant only if the result does not depend on the query's own provisional value")
+        cx.only_if(t, s, VariantIn(outer, {"Some"}, desc="an outer cycle exists"), "a participant always has an outer cycle that will finalise it")
+        cx.only_if(t, s, CallIs(r"^cycle::CycleHeads::is_empty$", False), "Participant only with cycle heads")
+    for s in cx.sites(t.aggregates(r"QueryExecutionOutcome$", "CycleHead"), 1, "CycleHead"):
+        cx.only_if(t, s, dep, "CycleHead only if the result depends on the query's own provisional value")
+        o = t._origin_def(s, "assign", s.node(), 0, None, ())
+        cx.flow(t, o, [r"cycle_iteration: phi\{(" + col + r"\.0 \| \$4|\$4 \| " + col + r"\.0)\}\}$"], [], "the head continues with max_iteration or its own iteration", s)
+    # which of the two: max_iteration only for the outermost cycle
+    for site, kind, node in [(x, k, n) for x, k, n in value_defs(t, 0)]:
+        pass
+    mx = [s for s in t.all_sites() if not s.is_term() and s.node()["k"] == "assign" and t._origin_def(s, "assign", s.node(), 0, None, ()) == "function::execute::collect_all_cycle_heads($1, zalsa_local::ActiveQueryGuard::<'me>::take_cycle_heads($2), $2.database_key_index, $4).0"]
+    none_outer = CallIs(r"^std::option::Option::<T>::is_none$", True, [outer], desc="outer_cycle.is_none()")
+    chosen = [s for s in mx if OnlyIf(cx.facts, t).guarded(s, dep)]
+    cx.sites(chosen, 1, "selection of max_iteration as the head's iteration")
+    for s in chosen:
+        cx.only_if(t, s, none_outer, "max_iteration is adopted only by the outermost cycle head")
+    r = cx.fn(EXE + r"collect_all_cycle_heads::collect_recursive$")
+    me = Cmp(r"^\$2$", "==", r"^\$3$", desc="current_head == me")
+    for site, kind, node in value_defs(r, 0):
+        o = r._origin_def(site, kind, node, 0, None, ())
+        if re.search(r"1: const:1\}$", o):
+            cx.only_if(r, site, me, "depends_on_self is reported outright only for the query itself")
+            cx.flow(r, o, [r"^tuple\{0: <IterationStamp as std::default::Default>::default\(\), 1: const:1\}$"], [], "with a neutral iteration", site)
+    loops = cx.for_loops(r)
+    cx.require(len(loops) == 1, "collect_recursive: one loop over the examined head's heads")
+    nx = loops[0][0]
+    cx.flow(r, cx.arg(nx, 0), [r"into_iter\(cycle::ProvisionalStatus::<'.*>::cycle_heads\("], [r"rev|skip|take"], "every head of the examined head's memo is looked at", nx)
+    rec = cx.one_call(r, EXE + r"collect_all_cycle_heads::collect_recursive$", "recursion")
+    known = CallIs(r"^cycle::CycleHeads::contains$", True, desc="already one of the query's heads")
+    dup = CallIs(r"contains$", True, [r"^\$5$|missing"], desc="already collected")
+    cx.for_each(r, nx, [rec], "collect_recursive", allow_skip=[known, dup])
+    ra = cx.args(rec)
+    cx.check(ra[0] == "$1" and ra[2] == "$3" and ra[3] == "$4" and ra[4] == "$5", "the recursion keeps zalsa, me, the query's heads and the collected set", rec, {"args": ra}, key="rec-args")
+    cx.flow(r, ra[1], [r"Iterator>::next\(.*\)@Some\.0\.database_key_index$"], [], "and descends into the head just read", rec)
+    # the fold of depends_on_self over the heads is an OR (an assignment would forget an earlier `true`)
+    for body in (r, cx.fn(EXE + r"collect_all_cycle_heads$")):
+        ors = [x for x in body.all_sites() if not x.is_term() and x.node()["k"] == "assign" and x.node()["rv"]["k"] == "bin" and x.node()["rv"]["op"] == "BitOr"]
+        nested = [x for x in ors if re.search(r"collect_recursive\(.*\)\.1", body.origin_op(x.node()["rv"]["b"], 0, None, x)) or re.search(r"collect_recursive\(.*\)\.1", body.origin_op(x.node()["rv"]["a"], 0, None, x))]
+        cx.check(len(nested) >= 1, "%s: depends_on_self accumulates the recursive answers with OR" % body.short, (ors or [None])[0], key="or-fold " + body.short, body=body)
+    maxes = cx.some_calls(r, r"^std::cmp::Ord::max$", 2, "max folds in collect_recursive")
+    cx.check(not r.calls(r"^std::cmp::Ord::min$"), "iterations are folded with max, never min", maxes[0], key="no-min")
+    c = cx.fn(EXE + r"collect_all_cycle_heads$")
+    loops = cx.for_loops(c)
+    cx.require(len(loops) >= 1, "collect_all_cycle_heads: loop over the own heads")
+    first = loops[0][0]
+    rc = [s for s in c.calls(EXE + r"collect_all_cycle_heads::collect_recursive$")]
+    cx.sites(rc, 1, "call of collect_recursive")
+    cx.for_each(c, first, rc, "collect_all_cycle_heads")
+    a = cx.args(rc[0])
+    cx.check(a[0] == "$1" and a[2] == "$3" and a[3] == "$2", "each own head is resolved against (me, the query's own heads)", rc[0], {"args": a}, key="outer-args")
